@@ -172,6 +172,7 @@ JOB_NEXT_DAYLIKE_MAPPING = {
 
 def are_times_unique(
     timelist: list[dt.time],
+    period: dt.timedelta = dt.timedelta(days=1),
 ) -> bool:
     r"""
     Check if list contains distinct `datetime.time`\ s.
@@ -180,21 +181,25 @@ def are_times_unique(
     ----------
     timelist : list[datetime.time]
         List of time objects.
+    period : datetime.timedelta
+        Recurrence period of the times (a day, an hour or a minute).
 
     Returns
     -------
     boolean
         ``True`` if list entries are not equivalent with tzinfo offset.
     """
-    ref = dt.datetime(year=1970, month=1, day=1)
     collection = {
-        ref.replace(
-            hour=time.hour,
-            minute=time.minute,
-            second=time.second,
-            microsecond=time.microsecond,
+        (
+            dt.timedelta(
+                hours=time.hour,
+                minutes=time.minute,
+                seconds=time.second,
+                microseconds=time.microsecond,
+            )
+            - (time.utcoffset() or dt.timedelta())
         )
-        + (time.utcoffset() or dt.timedelta())
+        % period
         for time in timelist
     }
     return len(collection) == len(timelist)
